@@ -120,33 +120,72 @@ def saturation {α μ φ β : Type} [OfNat β 0] [OfNat β 1] [Add β] [Mul β] 
 
 /-! ### IEEE instances (what NumPy computes for Python-scalar `v_per_sec`, `fs`, `proportion`)
 
-`factor` is the literal `0.98`, `fs`, `v`, `p` the float64 values of the Python scalars.  With NumPy ≥ 2
+`factor` is the literal `0.98`, `fs`, `v`, `p` the float64 values of the scalars passed.  With NumPy ≥ 2
 (NEP 50) a Python scalar adopts the precision of the array it meets: for float32 data the slew test runs in
 float32 with `fs` and `v_per_sec` rounded to float32; a float32 `max_voltage` is multiplied by `float32(0.98)`.
 A comparison between float32 and float64 promotes the float32 side (exact).  The column mean is always float64. -/
 
 def meanF64 (k n : Nat) : Float := Float.ofNat k / Float.ofNat n
 
-/-- float64 data -/
+/-- float64 data: every operation is float64 whatever the scalar types -/
 def slew64 (fs v : Float) (a b : Float) : Bool := Float.abs (b - a) / fs >= v
-/-- float32 data -/
-def slew32 (fs v : Float) (a b : Float32) : Bool := Float32.abs (b - a) / fs.toFloat32 >= v.toFloat32
+
+/-- float32 data.  `np.diff` and `np.abs` stay float32.  `div64`: the division is carried out in float64 because `fs` is a
+"strong" float64 / int32 / int64 NumPy scalar (a Python scalar, `np.float32` or `np.int16` keep float32, then `fs` is rounded
+to float32).  `vr32`: the comparison runs in float32 (`v_per_sec` a Python scalar or `np.float32`: rounded to float32);
+otherwise the quotient is promoted to float64 (exact) and compared with the float64 value of `v_per_sec`. -/
+def slew32 (div64 vr32 : Bool) (fs v : Float) (a b : Float32) : Bool :=
+  let d := Float32.abs (b - a)
+  if div64 then d.toFloat / fs >= v
+  else
+    let q := d / fs.toFloat32
+    if vr32 then q >= v.toFloat32 else q.toFloat >= v
+
+/-- two's-complement wrap-around of a `bits`-wide NumPy integer -/
+def wrapInt (bits : Nat) (x : Int) : Int :=
+  let m : Int := (2 : Int) ^ bits
+  let r := x % m
+  if 2 * r ≥ m then r - m else r
+
+/-- `np.abs` of a `bits`-wide integer: the most negative value maps to itself -/
+def absInt (bits : Nat) (x : Int) : Int := wrapInt bits (if x < 0 then -x else x)
+
+/-- integer data (`bits`-wide, as coded: `np.diff` and `np.abs` wrap around).  The division by `fs` yields float64, except
+int16 data with an `np.float32` `fs` (float32: `div64 = false`; int16 converts exactly). -/
+def slewInt (bits : Nat) (div64 vr32 : Bool) (fs v : Float) (a b : Int) : Bool :=
+  let d := absInt bits (wrapInt bits (b - a))
+  if div64 then Float.ofInt d / fs >= v
+  else
+    let q := (Float.ofInt d).toFloat32 / fs.toFloat32
+    if vr32 then q >= v.toFloat32 else q.toFloat >= v
 
 def ops6464 (factor fs v p : Float) : Ops Float Float Float :=
   { over := fun x m => Float.abs x > m * factor
     slew := slew64 fs v, mean := meanF64, zero := 0, gt := fun q => q > p }
 
-def ops3264 (factor fs v p : Float) : Ops Float32 Float Float :=
+def ops3264 (div64 vr32 : Bool) (factor fs v p : Float) : Ops Float32 Float Float :=
   { over := fun x m => (Float32.abs x).toFloat > m * factor
-    slew := slew32 fs v, mean := meanF64, zero := 0, gt := fun q => q > p }
+    slew := slew32 div64 vr32 fs v, mean := meanF64, zero := 0, gt := fun q => q > p }
 
-def ops3232 (factor fs v p : Float) : Ops Float32 Float32 Float :=
+def ops3232 (div64 vr32 : Bool) (factor fs v p : Float) : Ops Float32 Float32 Float :=
   { over := fun x m => Float32.abs x > m * factor.toFloat32
-    slew := slew32 fs v, mean := meanF64, zero := 0, gt := fun q => q > p }
+    slew := slew32 div64 vr32 fs v, mean := meanF64, zero := 0, gt := fun q => q > p }
 
 def ops6432 (factor fs v p : Float) : Ops Float Float32 Float :=
   { over := fun x m => Float.abs x > (m * factor.toFloat32).toFloat
     slew := slew64 fs v, mean := meanF64, zero := 0, gt := fun q => q > p }
+
+/-- integer data against a float64 (or integer, converted by NumPy) `max_voltage`: the comparison promotes the integer to
+float64 -/
+def opsI64 (bits : Nat) (div64 vr32 : Bool) (factor fs v p : Float) : Ops Int Float Float :=
+  { over := fun x m => Float.ofInt (absInt bits x) > m * factor
+    slew := slewInt bits div64 vr32 fs v, mean := meanF64, zero := 0, gt := fun q => q > p }
+
+/-- integer data against a float32 `max_voltage` (threshold formed in float32; int16 is compared in float32, wider integers
+in float64 — both compare the exact values for |x| < 2^24 resp. 2^53, so one float64 comparison transcribes them) -/
+def opsI32 (bits : Nat) (div64 vr32 : Bool) (factor fs v p : Float) : Ops Int Float32 Float :=
+  { over := fun x m => Float.ofInt (absInt bits x) > (m * factor.toFloat32).toFloat
+    slew := slewInt bits div64 vr32 fs v, mean := meanF64, zero := 0, gt := fun q => q > p }
 
 /-- The rule stated with exact integers: "more than `a/b` of the `n` channels" is `k·b > a·n`. -/
 def opsExact {α μ : Type} (over : α → μ → Bool) (slew : α → α → Bool) (a b : Nat) : Ops α μ (Nat × Nat) :=
